@@ -64,6 +64,11 @@ def run(rep, tier, seed):
                           max_len=3, n_sent=12, n_mut=12, generator=twins_grammar)
     cases += lf.bnf_cases(rng, 100 if tier == "quick" else 1500, tts=("LALR", "LALR_PAGER"), algo="LR",
                           max_len=3, n_sent=12, n_mut=12, generator=diamond_grammar)
+    from gram import permute_grammar, samerest_grammar
+    cases += lf.bnf_cases(rng, 30 if tier == "quick" else 400, tts=("LALR", "LALR_PAGER"), algo="LR",
+                          max_len=2, n_sent=10, n_mut=10, generator=samerest_grammar)
+    cases += lf.bnf_cases(rng, 30 if tier == "quick" else 400, tts=("LALR", "LALR_PAGER"), algo="LR",
+                          max_len=2, n_sent=10, n_mut=10, generator=permute_grammar)
     lf.run_cases(cases, extra_requests=extra_requests)
     check_cases(rep, cases, proofs_ok)
 
